@@ -30,7 +30,7 @@ def shards(tier):
 
 def gates(c, tier):
     need = ["int-write", "int-read-padded", "int-read-random", "enum", "tag", "tag-multioctet", "len-long", "bool", "octets", "nest",
-            "child-refuses-sibling", "reader-op-sequences", "contract:_pack_asn1_integer", "contract:_read_asn1_integer", "contract:_pack_asn1",
+            "child-refuses-sibling", "reader-op-sequences", "repo-tests-under-contracts:runs", "contract:_pack_asn1_integer", "contract:_read_asn1_integer", "contract:_pack_asn1",
             "contract:_read_asn1_header", "contract:_pack_asn1_octet_number", "contract:_unpack_asn1_octet_number"]
     return [f"never exercised: {k}" for k in need if c.get(k, 0) == 0]
 
@@ -479,13 +479,52 @@ def run_shard(ctx: Ctx, acc: Acc):
             do("bool", (octet, b"\x07"), False, "bool")
         for ln in LENS:
             do("tag", (2, 0, False, ln, b"\x30"), ln >= 128, "len-long")
+    if ctx.shard == 0:
+        _repo_tests_under_contracts(acc)
     for k, v in contracts.evaluations.items():
         acc.count("contract:" + k, v)
     acc.sample({"int": -65536, "written": A._pack_asn1_integer(-65536).hex()})
     acc.sample({"tag": [2, 16384, True], "identifier": ber.ident_octets(2, True, 16384).hex()})
 
 
+def _repo_tests_under_contracts(acc):
+    """The repository's own tests, unedited, with the contracts on: a contract that fires there is either too
+    strict or a defect the tests do not assert."""
+    import json
+    import os
+    import subprocess
+    import tempfile
+
+    from vf.common import DEPS, PYTHON, REPO, REPO_SRC, VERIF
+
+    out = tempfile.mktemp(prefix="vf-contracts-", suffix=".json")
+    env = dict(os.environ, PYTHONPATH=os.pathsep.join([REPO_SRC, VERIF, DEPS]), VF_CONTRACTS_OUT=out, PYTHONDONTWRITEBYTECODE="1")
+    try:
+        p = subprocess.run([PYTHON, "-m", "pytest", "-q", "-p", "no:cacheprovider", "-p", "vf.mon.pytest_contracts", os.path.join(REPO, "tests")],
+                           cwd=REPO, env=env, capture_output=True, text=True, errors="replace", timeout=900)
+        res = json.load(open(out)) if os.path.exists(out) else None
+    except Exception as e:
+        acc.notes.append(f"repository tests under contracts could not run: {type(e).__name__}: {e}")
+        return
+    finally:
+        if os.path.exists(out):
+            os.unlink(out)
+    if res is None:
+        acc.notes.append("repository tests under contracts produced no summary: " + (p.stdout or "")[-300:])
+        return
+    acc.case()
+    acc.count("repo-tests-under-contracts:runs")
+    acc.count("repo-tests-under-contracts:contract-evaluations", sum(res["evaluations"].values()))
+    acc.extra["repo_tests_under_contracts"] = {"pytest_exit": res["exitstatus"], "evaluations": res["evaluations"], "tail": (p.stdout or "").strip().splitlines()[-1:]}
+    for name, what in res["broken"][:5]:
+        acc.violation("contract-in-repo-tests:" + name, f"while running the repository's own tests: post-condition of sansldap.asn1.{name} broken: {what}", {"kind": "repo-tests"})
+
+
 def replay(w):
+    if w.get("kind") == "repo-tests":
+        a = Acc("C07")
+        _repo_tests_under_contracts(a)
+        return [(v["key"], v["what"]) for v in a.violations.values()]
     contracts.install()
     contracts.take()
     if w.get("kind") == "child":
